@@ -1,12 +1,12 @@
 (* Tie_units_integration.v - GENERATED once by harness/gen_ties.py: the declared units of every input and output of the classes of
    openaerostruct/integration/, regenerated from the source, are the reviewed ones (by computation). *)
 From Coq Require Import String List Bool.
-From OAS Require Import IOUnits IOUnitsReviewed.
+From OAS Require Import TieBase IOUnits IOUnitsReviewed.
 Import ListNotations.
 Open Scope string_scope.
 Definition units_dir_integration (u : list (string * string * string * string * string)) :=
   filter (fun r => match r with (f, _, _, _, _) => prefix "integration/" f end) u.
 Lemma units_integration_reviewed : units_dir_integration gen_io_units = units_dir_integration reviewed_io_units.
-Proof. reflexivity. Qed.
+Proof. apply units_eqb_sound. vm_compute. reflexivity. Qed.
 Lemma units_integration_nonempty : units_dir_integration reviewed_io_units <> [].
 Proof. discriminate. Qed.
